@@ -101,7 +101,77 @@ class Impl:
         dec = (back.netqasm_version[0], back.netqasm_version[1], back.app_id,
                [self.view_instr(i) for i in back.instructions])
         ok = (list(back.instructions) == instrs and tuple(back.netqasm_version) == (v0, v1) and back.app_id == app)
+        if ok:
+            # a decoded subroutine belongs to its caller: changing it in place (as the NV transpiler
+            # and the SDK do) must not change what the same bytes decode to afterwards
+            again = self.redecode_after_scramble(fname, raw, back, back_p)
+            if again is not None and again != dec:
+                return dict(bytes=list(raw), dec=again, oracle_ok=False,
+                            err="second decoding of the same bytes differs after the first result was modified in place")
         return dict(bytes=list(raw), dec=dec, oracle_ok=ok, err=None)
+
+    def scramble(self, obj, depth=0, seen=None):
+        """Change every integer / enum leaf of a decoded instruction IN PLACE (best effort): mutable
+        dataclasses are assigned to, frozen ones (operands) are replaced in the field that holds them.
+        Every object once, also when it is reachable twice (shared operands, cached instructions).
+        Returns the object to store in the parent's field."""
+        import dataclasses
+        import enum
+        seen = self._seen if seen is None else seen
+        if depth > 4 or not dataclasses.is_dataclass(obj) or id(obj) in seen:
+            return obj
+        seen[id(obj)] = obj
+        frozen = getattr(obj, "__dataclass_params__", None) is not None and obj.__dataclass_params__.frozen
+        changes = {}
+        for f in dataclasses.fields(obj):
+            if f.name in ("id", "mnemonic", "lineno"):
+                continue
+            try:
+                v = getattr(obj, f.name)
+                if isinstance(v, enum.Enum):
+                    members = list(type(v))
+                    nv = members[(members.index(v) + 1) % len(members)]
+                elif isinstance(v, bool) or v is None:
+                    continue
+                elif isinstance(v, int):
+                    nv = type(v)(int(v) ^ 1) if type(v) is not int else v ^ 1
+                elif dataclasses.is_dataclass(v):
+                    nv = self.scramble(v, depth + 1, seen)
+                    if nv is v:
+                        continue
+                else:
+                    continue
+                if frozen:
+                    changes[f.name] = nv
+                else:
+                    setattr(obj, f.name, nv)
+            except Exception:
+                continue
+        if frozen and changes:
+            try:
+                return dataclasses.replace(obj, **changes)
+            except Exception:
+                return obj
+        return obj
+
+    def redecode_after_scramble(self, fname, raw, *decoded):
+        flav = self.t["flavours"][fname]["flavour"]
+        self._seen = {}
+        for sub in decoded:
+            for ins in list(sub.instructions):
+                self.scramble(ins)
+            try:
+                sub.app_id = (sub.app_id or 0) ^ 1
+            except Exception:
+                pass
+        try:
+            b2 = self.deserialize(bytes(raw), flavour=flav)
+            b3 = self.persistent_deserializer(fname).deserialize_subroutine(bytes(raw))
+        except Exception:
+            return ("raises",)
+        v2 = (b2.netqasm_version[0], b2.netqasm_version[1], b2.app_id, [self.view_instr(i) for i in b2.instructions])
+        v3 = (b3.netqasm_version[0], b3.netqasm_version[1], b3.app_id, [self.view_instr(i) for i in b3.instructions])
+        return v2 if v2 == v3 else ('fresh and long-lived deserializer disagree', v2, v3)
 
     def run_history(self, fname, v0, v1, app, body, muts):
         """One Subroutine OBJECT through a history: serialize, mutate in place, serialize again.
